@@ -75,3 +75,31 @@ fn sortlaw_inner(arr: &Vec<V>) -> Option<&'static str> {
     }
     viol
 }
+
+/// `poslaw <hex s> <hex x>`: C15's position coherence evaluated on the builtins themselves (string offset of this build)
+pub fn run_poslaw(t: &mut Toks) -> Option<String> {
+    use slac::stdlib::common::{at, copy, find, length};
+    use slac::stdlib::STRING_OFFSET as OFF;
+    let s = t.name()?; let x = t.name()?;
+    let sv = V::String(s.clone()); let xv = V::String(x.clone());
+    let chars: Vec<char> = s.chars().collect();
+    let len = match length(&[sv.clone()]) { Ok(V::Number(l)) => l, _ => return Some("viol length-err".into()) };
+    if len != chars.len() as f64 { return Some("viol length-chars".into()); }
+    // at(s, i) over first..first+length(s)-1 enumerates s; first-1 and first+length are out of range
+    for (i, c) in chars.iter().enumerate() {
+        if at(&[sv.clone(), V::Number(OFF + i as f64)]) != Ok(V::String(c.to_string())) { return Some("viol at-enumerates".into()); }
+    }
+    if at(&[sv.clone(), V::Number(OFF - 1.0)]).is_ok() || at(&[sv.clone(), V::Number(OFF + len)]).is_ok() { return Some("viol at-range".into()); }
+    let f = match find(&[sv.clone(), xv.clone()]) { Ok(V::Number(p)) => p, _ => return Some("viol find-err".into()) };
+    if s.contains(&x) {
+        // copy(s, find(s,x), length(x)) = x
+        let lx = match length(&[xv.clone()]) { Ok(V::Number(l)) => l, _ => return Some("viol length-err".into()) };
+        if copy(&[sv.clone(), V::Number(f), V::Number(lx)]) != Ok(xv.clone()) { return Some("viol copy-find".into()); }
+        if f < OFF { return Some("viol find-present".into()); }
+    } else if f != OFF - 1.0 { return Some("viol find-absent".into()); }
+    // arrays: always from 0, failed find = -1
+    let arr: Vec<V> = chars.iter().map(|c| V::String(c.to_string())).collect();
+    for (i, v) in arr.iter().enumerate() { if at(&[V::Array(arr.clone()), V::Number(i as f64)]).as_ref() != Ok(v) { return Some("viol at-array".into()); } }
+    if find(&[V::Array(arr.clone()), V::String("\u{1}nope".into())]) != Ok(V::Number(-1.0)) { return Some("viol find-array-absent".into()); }
+    Some("ok".into())
+}
